@@ -334,6 +334,57 @@ static void run_reclaim(void)
 	main_leave();
 }
 
+/* helper destroyed while it is still invoking a batch whose callback re-enqueues another one (onto the helper's own
+ * queue): the destruction must wait for the helper to stop, then hand the chained callback over */
+static void run_reenqueue_free(void)
+{
+	pthread_t r;
+	struct call_rcu_data *crdp;
+
+	main_enter();
+	crdp = create_call_rcu_data(vrt_param("rt", 0) ? URCU_CALL_RCU_RT : 0, -1);
+	set_thread_call_rcu_data(crdp);
+	pthread_create(&r, NULL, reader, (void *)2L);
+	BLOCKING(vrt_await(ready_pred, (void *)1L));
+	ST(x, 1);
+	do_call_rcu(0, cb_reenq);
+	set_thread_call_rcu_data(NULL);
+	BLOCKING(call_rcu_data_free(crdp));
+	wait_cbs(2);		/* a lost chained callback never satisfies this: deadlock / livelock verdict */
+	BLOCKING(pthread_join(r, NULL));
+	check_cbs("reenqueue_free", 2);
+	main_leave();
+}
+
+/* call_rcu on a per-CPU helper racing with free_all_cpu_call_rcu_data(): the grace period inside the teardown must cover
+ * the whole call_rcu (helper lookup AND enqueue) */
+static void *enq_cpu_thread(void *a)
+{
+	rcu_register_thread();
+	vrt_set_cpu((int)vrt_param("cpu", 1));
+	do_call_rcu((int)(long)a, cb);
+	rcu_unregister_thread();
+	return NULL;
+}
+
+static void run_per_cpu_free_race(void)
+{
+	pthread_t e;
+	int ret;
+
+	main_enter();
+	ret = create_all_cpu_call_rcu_data(0);
+	VRT_CHECK(ret == 0, "create_all_cpu_call_rcu_data failed: %d", ret);
+	pthread_create(&e, NULL, enq_cpu_thread, (void *)0L);
+	if (vrt_param("yield_first", 1))
+		BLOCKING(vrt_yield());	/* the enqueuer runs first; one preemption then suspends it anywhere inside call_rcu() */
+	BLOCKING(free_all_cpu_call_rcu_data());
+	BLOCKING(pthread_join(e, NULL));
+	wait_cbs(1);
+	check_cbs("per_cpu_free_race", 1);
+	main_leave();
+}
+
 /* ---- C04 scenarios: rcu_barrier ------------------------------------------------------------------------ */
 static int flag;
 static int flag_pred(void *a) { (void)a; return flag; }
@@ -528,6 +579,8 @@ struct vrt_scenario vrt_scenarios[] = {
 	{ "free_pending", run_free_pending, "helper freed with callbacks pending" },
 	{ "per_cpu", run_per_cpu, "per-CPU helpers (params cpu, migrate)" },
 	{ "reenqueue", run_reenqueue, "callback re-enqueues a callback" },
+	{ "reenqueue_free", run_reenqueue_free, "helper destroyed while its running batch re-enqueues a callback" },
+	{ "per_cpu_free_race", run_per_cpu_free_race, "call_rcu on a per-CPU helper || free_all_cpu_call_rcu_data" },
 	{ "reclaim", run_reclaim, "callback frees the object a reader may hold" },
 	{ "barrier", run_barrier, "rcu_barrier after call_rcu by another thread (params per_thread, reader, await_flag, second_cb)" },
 	{ "barrier2", run_barrier2, "two concurrent rcu_barrier callers" },
